@@ -52,7 +52,8 @@ Fixpoint UTF16ToString (text : list Z) : bytes :=
       end
   end.
 
-(* DecodeWTF8Rune: (rune, width).  Width 0 for an empty or truncated input.
+(* DecodeWTF8Rune: (rune, width).  Width 0 only for an empty input; a truncated
+   multi-byte sequence gives (RuneError, 1) (after fix 8cccdcd in /repo).
    On bytes (0..255): (s0&0xE0)==0xC0 <-> 192<=s0<224, s0&0x1F = s0-192,
    (s1&0xC0)==0x80 <-> 128<=s1<192, s1&0x3F = s1-128, etc.; written that way. *)
 Definition cont (b : Z) : bool := (128 <=? b) && (b <=? 191).
@@ -66,23 +67,23 @@ Definition DecodeWTF8Rune (s : bytes) : Z * Z :=
                   else if (224 <=? s0) && (s0 <? 240) then 3
                   else if (240 <=? s0) && (s0 <? 248) then 4 else 0 in
         if sz =? 0 then (RuneError, 1)
-        else if Z.of_nat (length s) <? sz then (RuneError, 0)
+        else if Z.of_nat (length s) <? sz then (RuneError, 1)
         else match t with
-             | [] => (RuneError, 0)
+             | [] => (RuneError, 1)
              | s1 :: t1 =>
                  if negb (cont s1) then (RuneError, 1)
                  else if sz =? 2 then
                    let cp := (s0 - 192) * 64 + (s1 - 128) in
                    if cp <? 128 then (RuneError, 1) else (cp, 2)
                  else match t1 with
-                      | [] => (RuneError, 0)
+                      | [] => (RuneError, 1)
                       | s2 :: t2 =>
                           if negb (cont s2) then (RuneError, 1)
                           else if sz =? 3 then
                             let cp := (s0 - 224) * 4096 + (s1 - 128) * 64 + (s2 - 128) in
                             if cp <? 2048 then (RuneError, 1) else (cp, 3)
                           else match t2 with
-                               | [] => (RuneError, 0)
+                               | [] => (RuneError, 1)
                                | s3 :: _ =>
                                    if negb (cont s3) then (RuneError, 1)
                                    else
